@@ -232,9 +232,15 @@ def priming_family(kind):
     decls = dict(
         bools=(dict(x='bool', y='bool', z='bool'), dict(k='bool')),
         ints=(dict(x='bool', y=(-1, 1), z=(-3, -1)), dict(k=(0, 2))),
+        # an integer whose *name* equals the name of a bit of another integer (x_0 is also bit 0 of x); omega
+        # accepts this when the two are declared in separate calls; identifiers and bits must not be confused
+        clash=(dict(x=(0, 1), y=(-1, 1), z='bool'), dict(k='bool'), dict(x_0=(0, 2))),
     )[kind]
     aut = trl.Automaton()
     aut.declare_variables(**decls[0])
+    if len(decls) > 2:
+        aut.declare_variables(**decls[2])
+        decls = (dict(decls[0], **decls[2]), decls[1])
     # siblings for prime.rename_variables, declared next to the originals (a rename across the ~100 table
     # constants further down the order does not finish in dd.autoref)
     aut.declare_variables(**{n + '2': d for n, d in decls[0].items()})
@@ -314,7 +320,7 @@ def priming_family(kind):
         r3 = aut.replace_with_unprimed([s for s in flex if s not in sub], pu)
         decide(f'replace_with_unprimed complement of {sub} in prime(u)', r3, u, ren_of(sub), smp)
     # mixed predicates: the same identifier primed and unprimed in one support (an action such as x' = x + 1)
-    mixed = dict(bools=['x', "x'", "y'", 'z', 'k'], ints=["x'", 'y', "y'", 'k'])[kind]
+    mixed = dict(bools=['x', "x'", "y'", 'z', 'k'], ints=["x'", 'y', "y'", 'k'], clash=['x', "x'", 'x_0', "y'", 'k'])[kind]
     mexpr = family.table(aut, 'm', mixed, mparams)
     aut.declare_constants(**{p: 'bool' for p in mparams})
     mu = aut.add_expr(mexpr)
@@ -435,7 +441,7 @@ def run(tier, seed, t0, only=None):
         for be in (['cudd'] if i % (4 * size) else ['cudd', 'autoref']):
             tasks.append(dict(mod='vlib.props.c18', fn='api_declarations', kw=dict(pairs=pairs[i:i + size], seed=seed + i),
                               backend=be, timeout=1800, name=f'{be}:api:{pairs[i]}..'))
-    for kind in ('bools', 'ints'):
+    for kind in ('bools', 'ints', 'clash'):
         for be in ('cudd', 'autoref'):
             tasks.append(dict(mod='vlib.props.c18', fn='priming_family', kw=dict(kind=kind), backend=be,
                               timeout=1800, name=f'{be}:priming:{kind}'))
